@@ -12,7 +12,7 @@ CONSTANTS
   Sentences <- ModelSentences
   ResetMin = 3
   DefaultVer = 1
-  StakeVecs <- Vecs4Q
+  StakeVecs <- Vecs4K
   StakeSet = {1, 2}
   Amounts = {1}
   DTs = {1, 3}
